@@ -17,7 +17,8 @@ RULE = ('one generator, twelve entry points: versionedDecode of every response t
         'message (gzip, snappy, lz4, zstd; correct size and CRC; optionally nested twice) and a damaged or random record area with a true or '
         'hostile record count inside a VALID v2 batch (5 codecs, correct length and CRC-32C), bare or as the records of a fetch partition. Oracle: the '
         'call returns; a recovered panic (symptom = class @ innermost sarama function), process death (case persisted first; 12 GiB address space), '
-        '20 s inside one call, or heap allocation above 64 x (input + decompressed) + 256 KiB is a violation (counter /gc/heap/allocs:bytes around '
+        'a call that does not return (20 s of process CPU time burnt inside one call, or no goroutine runnable at three looks 20 s apart: never a '
+        'wall-clock limit), or heap allocation above 64 x (input + decompressed) + 256 KiB is a violation (counter /gc/heap/allocs:bytes around '
         'the call; when it exceeds 64 x input + 256 KiB the call is repeated with every allocation profiled and the bytes are split by whether '
         'decompress() is on the stack; bytes allocated inside decompress() stand in for the decompressed size; the plan entry is bounded by 8192 x '
         'input + 4 MiB). Checksum clause: one bit / one byte changed inside the CRC-covered span of a message or batch => error, or only records in '
@@ -48,7 +49,8 @@ CHECK = {'pkg': '.',
                  'a corrupted unit inside a complete message set may be reported as a partial trailing message (ErrInsufficientData inside it is '
                  'not distinguished from truncation by MessageSet.decode / FetchResponseBlock.decode); accepted as long as nothing of that unit or '
                  'behind it surfaces',
-                 'the 20 s watchdog and the 12 GiB address-space limit are 10^5 and 10^4 times above what a held case needs (0.3 ms, < 10 MB)']}
+                 'the 20 s CPU-time limit per call and the 12 GiB address-space limit are 10^5 and 10^4 times above what a held case needs (0.3 ms, < 10 MB); '
+                 'a process that is merely not scheduled accumulates no CPU time and is left alone']}
 
 TEXT = {'level': 'Generated-input search over every decode entry point a client feeds with bytes it does not control: noise, field-aware mutations of valid '
           'encodings of every response type and version, hostile payloads inside valid compressed wrappers, hostile group user data through a '
